@@ -88,5 +88,21 @@ def main(argv):
     return code
 
 
+def sweep():
+    """Remove scratch directories of this run's (terminated) workers"""
+    import glob
+    import shutil
+    import tempfile
+    for base in ('/dev/shm', tempfile.gettempdir()):
+        for path in glob.glob(os.path.join(
+                base, 'spowtd-verif-%d-*' % os.getpid())):
+            shutil.rmtree(path, True)
+
+
 if __name__ == '__main__':
-    sys.exit(main(sys.argv[1:]))
+    os.environ['SPOWTD_VERIF_ROOT_PID'] = str(os.getpid())
+    try:
+        CODE = main(sys.argv[1:])
+    finally:
+        sweep()
+    sys.exit(CODE)
